@@ -183,7 +183,7 @@ func init() {
 		},
 		Run: runC08,
 		Promises: func(core.Tier) map[string][]string {
-			return map[string][]string{"nesting": {"nested-update", "nested-batch"}, "tx_kind": {"update-committed", "update-rolled-back", "update-vetoed", "batch-committed", "batch-concurrent-with-failure"},
+			return map[string][]string{"nesting": {"nested-update", "nested-batch", "commit-action-registered-before-the-transaction", "listener-registered-inside-the-transaction"}, "tx_kind": {"update-committed", "update-rolled-back", "update-vetoed", "batch-committed", "batch-concurrent-with-failure"},
 				"event": {"emps:created", "emps:updated", "emps:deleted", "depts:created", "depts:deleted", "emps/ext:created", "emps/ext:updated", "emps/ext:deleted", "emps/xt:created", "emps/xt:updated", "emps/xt:deleted",
 					"parent-event-for-child:created", "parent-event-for-child:updated", "parent-event-for-child:deleted"}}
 		},
@@ -347,6 +347,13 @@ func runC08(c *core.Ctx, idx int) {
 
 	serial := 0
 	var hist []string
+	// listeners registered while a transaction was in flight (after its operations, before its commit): they are
+	// registered listeners when the change commits, so they get that transaction's events and all later ones
+	type lateReg struct {
+		style, store string
+		serial       int
+	}
+	var late []lateReg
 	checkTx := func(label string, serials []int, exp []expEvent, commits map[int]int, txDoneExp map[int]int, info any) {
 		quiesce(baseline)
 		rec.mu.Lock()
@@ -388,6 +395,11 @@ func runC08(c *core.Ctx, idx int) {
 			if !ev.Optional {
 				for _, style := range []string{"multi:AddListener", "multi:AddEntityEventListener", "multi:AddEntityEventListenerF", "multi:AddEntityIdListener"} {
 					want[strings.Join([]string{style, ev.Store, "*", ev.Id, ""}, "|")]++
+				}
+				for _, l := range late {
+					if l.store == ev.Store && serials[0] >= l.serial {
+						want[strings.Join([]string{l.style, ev.Store, "*", ev.Id, ""}, "|")]++
+					}
 				}
 			}
 			c.Cover("event", ev.Store+":"+ev.Type)
@@ -435,7 +447,7 @@ func runC08(c *core.Ctx, idx int) {
 		for _, k := range keys {
 			if want[k] != have[k] {
 				p := strings.SplitN(k, "|", 5)
-				if strings.HasPrefix(p[0], "multi:") && have[k] > want[k] && have[k] <= want[k]+optionalIds[p[1]+"|"+p[3]] {
+				if (strings.HasPrefix(p[0], "multi:") || strings.HasPrefix(p[0], "late:")) && have[k] > want[k] && have[k] <= want[k]+optionalIds[p[1]+"|"+p[3]] {
 					continue
 				}
 				kind := "missing"
@@ -520,6 +532,25 @@ func runC08(c *core.Ctx, idx int) {
 				if err != nil {
 					return err
 				}
+			}
+			// every fifth transaction registers a new listener after its operations, before it commits
+			if s%5 == 2 && len(ops) > 0 {
+				k := ops[0].Store
+				lst := e.Sc.St(k)
+				style := fmt.Sprintf("late:%d:%s", s, []string{"AddEntityIdListener", "AddListener", "AddEntityEventListenerF"}[(s/5)%3])
+				switch (s / 5) % 3 {
+				case 0:
+					lst.Store.AddEntityIdListener(func(id string) { rec.add(delivery{Style: style, Store: k, Type: "*", Id: id}) }, boltz.EntityCreated, boltz.EntityUpdated, boltz.EntityDeleted)
+				case 1:
+					lst.Store.AddListener(func(en boltz.Entity) {
+						x, _ := en.(*schema.Ent)
+						rec.add(delivery{Style: style, Store: k, Type: "*", Id: idOf(x)})
+					}, boltz.EntityCreated, boltz.EntityUpdated, boltz.EntityDeleted)
+				default:
+					lst.Store.AddEntityEventListenerF(func(en *schema.Ent) { rec.add(delivery{Style: style, Store: k, Type: "*", Id: idOf(en)}) }, boltz.EntityCreated, boltz.EntityUpdated, boltz.EntityDeleted)
+				}
+				late = append(late, lateReg{style: style, store: k, serial: s})
+				c.Cover("nesting", "listener-registered-inside-the-transaction")
 			}
 			if failAfter {
 				return errCaller
